@@ -56,7 +56,10 @@ def _history(kind, ops_idx):
                 if any(k[0] == op[1] for k in kept):
                     cover("same-call-memoized-again")
                 kept.append((op[1], op[2], mem))
-                if op[3]:
+                if op[3] and sm.VALUES[op[2]] is None:
+                    cover("null-result-under-an-override-key")
+                    check("null-result-has-no-content-key", mem.content_key is None, mem.content_key)
+                elif op[3]:
                     cover("key-override")
                     check("override-key-is-used", mem.content_key.key.startswith("ko/"), mem.content_key)
                 elif sm.VALUES[op[2]] is not None:
